@@ -52,6 +52,14 @@ class _Flatten(ast.NodeTransformer):
     def visit_Call(self, node):
         self.generic_visit(node)
         f = node.func
+        if isinstance(f, ast.Name) and f.id in ("list", "tuple", "set", "sorted", "len", "iter") and len(node.args) == 1 and not node.keywords \
+                and isinstance(node.args[0], ast.Call) and isinstance(node.args[0].func, ast.Attribute) and node.args[0].func.attr == "keys" \
+                and not node.args[0].args and not node.args[0].keywords:
+            node.args = [node.args[0].func.value]  # iterating a dict iterates its keys
+            return node
+        if isinstance(f, ast.Name) and f.id == "getattr" and len(node.args) == 2 and not node.keywords \
+                and isinstance(node.args[1], ast.Constant) and isinstance(node.args[1].value, str) and node.args[1].value.isidentifier():
+            return ast.copy_location(ast.Attribute(value=node.args[0], attr=node.args[1].value, ctx=ast.Load()), node)
         if isinstance(f, ast.Attribute) and f.attr == "join" and isinstance(f.value, ast.Constant) and isinstance(f.value.value, str) \
                 and len(node.args) == 1 and not node.keywords and isinstance(node.args[0], (ast.Tuple, ast.List)) \
                 and not any(isinstance(x, ast.Starred) for x in node.args[0].elts):
@@ -100,7 +108,10 @@ def pattern_expr(src):
 
 
 def text(e):
-    return norm(flatten(e)) if any(isinstance(n, ast.JoinedStr) for n in ast.walk(e)) else norm(e)
+    needs = any(isinstance(n, ast.JoinedStr) or (isinstance(n, ast.Call) and isinstance(n.func, ast.Name) and n.func.id == "getattr")
+                or (isinstance(n, ast.Attribute) and n.attr == "keys")
+                or (isinstance(n, ast.Call) and isinstance(n.func, ast.Attribute) and n.func.attr == "join") for n in ast.walk(e))
+    return norm(flatten(e)) if needs else norm(e)
 
 
 # --------------------------------------------------------------------------------------- paths
@@ -177,10 +188,14 @@ class _Expand(ast.NodeTransformer):
         return node
 
     def _comp(self, node):
-        # comprehension targets shadow
+        # comprehension targets shadow - except in the first iterable, which is evaluated in the enclosing scope
         bound = {n.id for g in node.generators for n in ast.walk(g.target) if isinstance(n, ast.Name)}
+        first_iter = self.visit(node.generators[0].iter)
         inner = _Expand({k: v for k, v in self.env.items() if k not in bound})
-        return inner.generic_visit(node)
+        node.generators[0].iter = ast.Constant(value=None)
+        inner.generic_visit(node)
+        node.generators[0].iter = first_iter
+        return node
 
     visit_ListComp = visit_SetComp = visit_DictComp = visit_GeneratorExp = _comp
 
@@ -225,8 +240,9 @@ def _stateful_functions(mod):
 
 
 class Summariser:
-    def __init__(self, mod, fn, impure=(), pure=(), list_vars=None, max_paths=MAX_PATHS):
+    def __init__(self, mod, fn, impure=(), pure=(), list_vars=None, max_paths=MAX_PATHS, predicate=False):
         self.mod, self.fn = mod, fn
+        self.predicate = predicate  # the function answers yes/no: returned conditions are decomposed into True / False
         self.impure = set(IMPURE_CALLS) | set(impure) | _stateful_functions(mod)
         self.pure = set(pure)
         self.max_paths = max_paths
@@ -405,6 +421,21 @@ class Summariser:
         if isinstance(e, ast.IfExp):
             for q, v in self.outcomes(e.test, p):
                 yield from self.outcomes(e.body if v else e.orelse, q)
+            return
+        if isinstance(e, ast.Call) and norm(e.func) == "getattr" and len(e.args) == 3 and isinstance(e.args[1], ast.Constant) \
+                and isinstance(e.args[2], ast.Constant) and not e.args[2].value and not e.keywords:
+            # getattr(o, "a", <falsy>) as a condition is `hasattr(o, "a") and o.a`
+            both = ast.BoolOp(op=ast.And(), values=[
+                ast.Call(func=ast.Name(id="hasattr", ctx=ast.Load()), args=[e.args[0], e.args[1]], keywords=[]),
+                ast.Attribute(value=e.args[0], attr=e.args[1].value, ctx=ast.Load())])
+            ast.fix_missing_locations(both)
+            yield from self.outcomes(both, p)
+            return
+        hit = _first_ifexp(e)
+        if hit is not None:
+            # a conditional expression nested in the test (`(a if c else b) is None`): decide c first
+            for q, v in self.outcomes(hit.test, p):
+                yield from self.outcomes(_replace(e, hit, hit.body if v else hit.orelse), q)
             return
         f = self.fold(e)
         if f is None and isinstance(e, ast.Compare) and len(e.ops) == 1 and isinstance(e.ops[0], (ast.Is, ast.IsNot)) \
@@ -632,6 +663,12 @@ class Summariser:
                 p.end, p.value, p.node = "return", ast.Name(id="<value of the delegated generator>", ctx=ast.Load()), st
                 return [p]
             for q, e in self.fork_value(st.value, p.fork()):
+                if self.predicate and isinstance(e, (ast.BoolOp, ast.Compare, ast.UnaryOp, ast.Call)) and not (
+                        isinstance(e, ast.UnaryOp) and not isinstance(e.op, ast.Not)):
+                    for q2, v in self.outcomes(e, q.fork()):
+                        q2.end, q2.value, q2.node = "return", ast.Constant(value=bool(v)), st
+                        out.append(q2)
+                    continue
                 q.end, q.value, q.node = "return", e, st
                 out.append(q)
             return out
@@ -764,15 +801,23 @@ class Summariser:
         raise AnalysisError(f"path summariser: unmodelled statement `{norm(st).splitlines()[0][:60]}` in {self.fn.name}")
 
 
-def _first_ifexp(e):
-    stack = [e]
-    while stack:
-        n = stack.pop(0)
-        if isinstance(n, ast.IfExp):
-            return n
-        if isinstance(n, (ast.Lambda, ast.ListComp, ast.SetComp, ast.DictComp, ast.GeneratorExp)):
-            continue
-        stack[0:0] = list(ast.iter_child_nodes(n))
+def _first_ifexp(e, bound=frozenset()):
+    """first conditional expression whose test does not depend on a comprehension / lambda variable in scope"""
+    if isinstance(e, ast.IfExp) and not ({n.id for n in ast.walk(e.test) if isinstance(n, ast.Name)} & bound):
+        return e
+    if isinstance(e, ast.Lambda):
+        return None
+    if isinstance(e, (ast.ListComp, ast.SetComp, ast.DictComp, ast.GeneratorExp)):
+        inner = bound | {n.id for g in e.generators for n in ast.walk(g.target) if isinstance(n, ast.Name)}
+        for c in ast.iter_child_nodes(e):
+            r = _first_ifexp(c, inner)
+            if r is not None:
+                return r
+        return None
+    for c in ast.iter_child_nodes(e):
+        r = _first_ifexp(c, bound)
+        if r is not None:
+            return r
     return None
 
 
